@@ -35,7 +35,7 @@ def main():
             p = os.path.join(wt, "_out", junk)
             if os.path.isfile(p):
                 os.remove(p)
-        rc0, o0 = sh("sh _out/run_demo.sh", cwd=wt)
+        rc0, o0 = sh("bash _out/run_demo.sh", cwd=wt)
         rec["demo_unchanged"] = {"rc": rc0, "tail": o0[-400:]}
         rca, oa = sh("git apply _out/patch.diff", cwd=wt)
         rec["apply"] = {"rc": rca, "out": oa[-300:]}
@@ -43,7 +43,7 @@ def main():
         rct, ot = sh("ctest --test-dir _b -j8 --timeout 900 2>&1 | tail -4", cwd=wt)
         m = re.search(r"(\d+)% tests passed, (\d+) tests failed out of (\d+)", ot)
         rec["tests_with_change"] = {"build_rc": rcb, "summary": m.group(0) if m else ot[-300:]}
-        rc1, o1 = sh("sh _out/run_demo.sh", cwd=wt)
+        rc1, o1 = sh("bash _out/run_demo.sh", cwd=wt)
         rec["demo_changed"] = {"rc": rc1, "tail": o1[-600:]}
         ok = rc0 == 0 and rca == 0 and rcb == 0 and m and m.group(2) == "0" and m.group(3) == "82" and rc1 != 0
         rec["confirmed"] = bool(ok)
